@@ -114,8 +114,8 @@ type tgtConn struct {
 	sentTasks   []*tgtTask  // every task the proxy has put on this stream (OnS2C), received by the target or not
 	ackTracked  []int       // len(tracked) at the emission of each ack, in order
 	rounds      []*ackRound // C05: translations the proxy made for each ack it read on this stream
-	diedAt      int // decision at which the stream was first seen dead (0 = alive)
-	endedAt     int // decision at which the proxy's handler for the stream was seen to have returned
+	diedAt      int         // decision at which the stream was first seen dead (0 = alive)
+	endedAt     int         // decision at which the proxy's handler for the stream was seen to have returned
 }
 
 // ackRound is one SyncReplicationState read by the proxy on a target stream and the
